@@ -2156,3 +2156,22 @@ impl Database {
         })
     }
 }
+
+#[cfg(all(redb_verif, not(redb_no_std)))]
+#[allow(missing_docs, clippy::pedantic)]
+impl ReadOnlyDatabase {
+    /// Verification hook: what `Builder::open_read_only` does, for a caller-supplied backend
+    pub fn verif_open_with_backend(
+        backend: impl StorageBackend,
+        page_size: usize,
+        region_size: Option<u64>,
+        cache_size: usize,
+    ) -> Result<ReadOnlyDatabase, DatabaseError> {
+        ReadOnlyDatabase::new(
+            Box::new(ReadOnlyBackend::new(Box::new(backend))),
+            page_size,
+            region_size,
+            cache_size,
+        )
+    }
+}
